@@ -1,7 +1,8 @@
 """C04 — AP, APH and mAP equal the interpolated precision-recall area, within [0,1].
 
-Under contract (numeric core of ap.py): get_precision_recall_list (p_k = T_k/(k+1), r_k = T_k/G), interpolate_precision_recall_list
-(the max-precision envelope), _calculate_ap (the area sum, its bounds, AP = 0 when no estimate is correct).
+Under contract (ap.py): Ap.__init__ on per-frame result lists (pooled into a list of its own, ranked once each by confidence, the four steps in order, AP undefined without
+results), Ap._calculate_tp_fp (which results count as TP / FP, rank by rank; float and whole-number thresholds), get_precision_recall_list (p_k = T_k/(k+1), r_k = T_k/G),
+interpolate_precision_recall_list (the max-precision envelope), _calculate_ap (the area sum, its bounds, AP = 0 when no estimate is correct); the APH weight of a TP (C09's tasks).
 """
 from pyvc.api import *
 
@@ -312,5 +313,7 @@ def build(P):
                            "zero_when_no_estimate_is_correct", f"implies(forall(k, 0, {n}, {PL}[k] == 0), result == 0)")),
              extra_contracts={idx.lookup(f"{AP}:Ap.interpolate_precision_recall_list").fq: c_named})
     P.assume("floats are reals: the area is exact, rounding is not modelled")
-    P.uncover("Ap.__init__ (flatten + stable sort by confidence), _calculate_tp_fp (cumulative TP weights via np.cumsum), Map (mean over labels with a defined AP), "
-              "'AP = 1 when every ground truth is matched and no wrong estimate outranks a correct one', 'APH <= AP': not under contract in this build")
+    P.uncover("Map (mean over the labels with a defined AP), 'AP = 1 when every ground truth is matched and no wrong estimate outranks a correct one', 'APH <= AP', and the flat-list form of "
+              "Ap.__init__ (a single list is ranked in place): not under contract in this build - native harness (bounded)")
+    P.trust("list.sort(key=f, reverse=True) on a list: afterwards the same items in another order (a bijection of positions), keys non-increasing, equal keys in their former order; "
+            "np.cumsum(xs)[k] = xs[0] + ... + xs[k] (assumed library contracts)")
